@@ -175,6 +175,22 @@ def run(rec, cfg):
             t = W9.build(s, lambda l, r, i: BinaryTreeNode(l, r))
             t.clone()
             rec.arm("start:raw-shape")
+    from . import _rulecommon as RC
+
+    for i, t in enumerate(RC.long_texts()):
+        if cfg.mine(i):
+            try:
+                root = D.parse(t)
+            except Exception:
+                continue
+            root.clone()
+            nodes = S.nodes_preorder(root)
+            for x in rng.sample(nodes, 12) + [nodes[-1]]:
+                try:
+                    x.clone_from_root()
+                except Exception:
+                    pass
+            rec.arm("start:long")
     n = cfg.scale(350, 30000)
     for i in range(n):
         if cfg.out_of_time():
